@@ -51,6 +51,8 @@ def builtin_or_template(motif):
         es = [[vs[i], vs[j]] if as_list else (vs[i], vs[j]) for i, j in edges
               if not (drop_loops and vs[i] == vs[j])]
         if ret == "bare":
+            if motif.get("return_argument") and len(vs) == 2 and tuple(edges[0]) == (0, 1):
+                return vs  # the callback hands back the very list it was given (a legal bare edge [u, v])
             return es[0]
         if ret == "tuple":
             return tuple(es)
@@ -92,11 +94,14 @@ def motif_shape(draw, custom, allow_size1=True):
     ne = max(1, min(ne, len(pairs)))
     edges = draw(st.lists(st.sampled_from(pairs), min_size=ne, max_size=ne, unique_by=tuple))
     # every position should be used by some edge?  not required: unused positions still consume stubs
+    extra = {}
     if custom and ne == 1 and draw(st.booleans()):
         ret = "bare"
+        if m == 2 and draw(st.booleans()):
+            extra["return_argument"] = True
     else:
         ret = draw(st.sampled_from(["list", "tuple"]))
-    return {"kind": "template", "m": m, "edges": edges, "ret": ret,
+    return {**extra, "kind": "template", "m": m, "edges": edges, "ret": ret,
             # edges written as lists instead of tuples: only the custom generator (pure edge-list output)
             "etype": draw(st.sampled_from(["tuple", "tuple", "list"])) if custom else "tuple"}
 
@@ -131,8 +136,10 @@ def gcm_case(draw, tier, algos=("fast", "network", "motifs"), max_leaf_stubs=Non
                 mo["names"] = draw(st.sampled_from(NAME_POOL))
             elif draw(st.booleans()):
                 mo["names"] = [draw(st.sampled_from(NAME_POOL)) for _ in range(ne)]
+                mo["names_iter"] = draw(st.booleans())
             else:
                 mo["names"] = [f"m{j}"] * ne
+                mo["names_iter"] = draw(st.booleans())
         else:
             mo["names"] = draw(st.sampled_from([f"t{j}", f"t{j}", NAME_POOL[j % len(NAME_POOL)] + f"#{j}"]))
             if mo["kind"] == "template" and draw(st.integers(0, 3)) == 3:
@@ -194,9 +201,14 @@ def build(case, journal):
 
     def wrap(j, fn):
         def cb(vertices):
-            vs = list(vertices)
-            es = fn(vs)
-            journal.append((j, vs, es))
+            # the library's own list object is passed through (a callback may legitimately return it); the
+            # journal keeps snapshots taken at call time, so later reuse of that object by the library shows
+            es = fn(vertices)
+            if isinstance(es, list) and (not es or isinstance(es[0], tuple)):
+                snap = list(es)  # tuples of ints are immutable: a shallow copy is a faithful snapshot
+            else:
+                snap = copy.deepcopy(es)
+            journal.append((j, list(vertices), snap))
             return es
         return cb
 
@@ -207,6 +219,8 @@ def build(case, journal):
         def namer(mo):
             names = mo["names"]
             ret = names if isinstance(names, str) else tuple(names)
+            if mo.get("names_iter") and not isinstance(names, str):
+                return lambda: iter(ret)  # a naming callback may yield its names (one-shot iterable)
             return lambda: ret
         params[GN.EDGE_NAMES] = [namer(mo) for mo in case["motifs"]]
         params[GN.MOTIF_INDICES] = [list(mo["cols"]) for mo in case["motifs"]]
@@ -281,6 +295,10 @@ def classes_of(case):
             cl.add("edges_as_lists")
         if m.get("drop_loops"):
             cl.add("variable_edge_count_callback")
+        if m.get("return_argument"):
+            cl.add("bare_edge_is_the_argument_list")
+        if m.get("names_iter"):
+            cl.add("names_from_one_shot_iterator")
         if not isinstance(m["names"], str) and len(set(m["names"])) > 1:
             cl.add("heterogeneous_names")
     return cl
